@@ -300,7 +300,11 @@ class Summaries:
     def s_abs_diff(self, ctx, st):
         """int::abs_diff"""
         a, b = ctx.args
-        pa, pb = a.poly(), b.poly()
+        pa, pb = st.facts.simplify(a.poly()), st.facts.simplify(b.poly())
+        if st.facts.entails_ge0(pa - pb, 2, 2):
+            return [(st, IntV(a.bits, False, p=pa - pb))]
+        if st.facts.entails_ge0(pb - pa, 2, 2):
+            return [(st, IntV(a.bits, False, p=pb - pa))]
         c = ge0(pa - pb, st.facts)
         r = c * (pa - pb) + (ONE - c) * (pb - pa)
         return [(st, IntV(a.bits, False, p=r))]
